@@ -354,6 +354,45 @@ func c04(c *h.Ctx) {
 		}
 	}
 
+	// transaction ids are AMF0 numbers (float64): ids that differ only in their fraction, or only above 2^32, are
+	// different transactions — each response matches its own request, a response with an id nobody used is refused
+	// and consumes nothing
+	{
+		in := &bytes.Buffer{}
+		p := rtmp.NewProtocol(&h.RW{Reader: in, Writer: &bytes.Buffer{}})
+		tids := []float64{2, 2.5, 4294967298, 3, 1e15 + 2, 0.5}
+		for _, t := range tids {
+			pk := rtmp.NewCreateStreamPacket()
+			pk.TransactionID = amf0.Number(t)
+			p.WritePacket(pk, 0)
+		}
+		answer := func(tid float64) string {
+			in.Write(responseWire("createStream", tid))
+			m, err := p.ReadMessage()
+			if err != nil {
+				return "read-err"
+			}
+			pkt, err := p.DecodeMessage(m)
+			if err != nil {
+				return "refused"
+			}
+			if r, ok := pkt.(*rtmp.CreateStreamResPacket); ok && float64(r.TransactionID) == tid {
+				return "matched"
+			}
+			return fmt.Sprintf("%T", pkt)
+		}
+		var got []string
+		got = append(got, "3.25:"+answer(3.25), "4294967299:"+answer(4294967299))
+		for _, t := range []float64{3, 4294967298, 0.5, 2.5, 1e15 + 2, 2} {
+			got = append(got, fmt.Sprintf("%v:%s", t, answer(t)))
+		}
+		got = append(got, "2(again):"+answer(2))
+		want := "3.25:refused 4294967299:refused 3:matched 4.294967298e+09:matched 0.5:matched 2.5:matched 1.000000000000002e+15:matched 2:matched 2(again):refused"
+		id := "requests with ids 2, 2.5, 2^32+2, 3, 1e15+2, 0.5; responses 3.25, 2^32+3, then each request's, then 2 again"
+		c.Hold(strings.Join(got, " ") == want, "ids_are_numbers", id, strings.Join(got, " "), want)
+		c.Case("ids/fractional-and-wide", id, true)
+	}
+
 	// a second _result for the same transaction is refused; a _result nobody asked for is refused
 	{
 		in := &bytes.Buffer{}
